@@ -495,6 +495,27 @@ pub fn run(ctx: &Ctx) -> i32 {
             neighbouring_settings_case(st, &tcs, s.normalised(), flag);
         });
     }
+    // prefixes that fold into shared trie states (edge insertion order inside one equivalence class)
+    {
+        let n = if ctx.thorough { 600_000 } else { 60_000 };
+        par_for(&ctx.run, n, |i, st| {
+            let mut rng = Rng::new(seed, 0x10a_0000 + i as u64);
+            let tcs = gen::merged_prefix_family(&mut rng, if i % 2 == 0 { &["a", "b"] } else { &["a", "b", "c"] });
+            st.count("merged_prefix_families");
+            rebuild_case(st, &tcs, Settings::new(REP), 3, &mut rng);
+        });
+    }
+    // prefixes followed by different sets of repeat counts, with continuations (class representatives / edge order)
+    {
+        let cs = gen::count_set_cases();
+        par_for(&ctx.run, cs.len(), |i, st| {
+            let mut rng = Rng::new(seed, 0x109_0000 + i as u64);
+            st.count("count_set_cases");
+            rebuild_case(st, &cs[i], Settings::new(REP), 4, &mut rng);
+            let with_tail: Vec<String> = cs[i].iter().enumerate().map(|(k, t)| format!("{t}{}", ["b", "bb", "", "ab"][k % 4])).collect();
+            rebuild_case(st, &with_tail, Settings::new(REP), 4, &mut rng);
+        });
+    }
     // exhaustive small sets with repetition conversion: all permutations of up to 4 words
     let words: Vec<String> = gen::words(&["a", "b"], 3).into_iter().filter(|w| !w.is_empty()).collect();
     let subs = gen::subsets(words.len(), 3);
